@@ -55,3 +55,47 @@ def _taper_y0(case, v):
     # Taper interpolates the chord ratio on the absolute y coordinate (root assumed at y=0)
     t = _tags(v)
     return case.get("kind") == "single" and case.get("dv") == "taper" and "root_off_y0" in t and v["family"].startswith("taper/")
+
+
+# ---------------------------------------------------------------------------------------------- C04
+@predicate("wave_drag_symmetric_x2")
+def _wave_x2(case, v):
+    # WaveDrag doubles the *coefficient* for symmetric surfaces (wave_drag.py: outputs["CDw"] *= 2 under symmetry), so the
+    # half model reports exactly twice the full model's CDw; fuel burn and L=W inherit it through the total CD.
+    t = _tags(v)
+    if v["family"] in ("aero/CDw", "as/surface_CDw"):
+        r = v["detail"].get("ratio")
+        return "symmetry" in t and r is not None and abs(r - 2.0) < 1e-6
+    if v["family"] in ("as/fuelburn", "as/L_equals_W"):
+        return "depends_on_CDw" in t
+    return False
+
+
+@predicate("ghost_bridging_panel_root_off_y0")
+def _ghost_bridge(case, v):
+    # VortexMesh builds the ghost by mirroring all but the root column: a symmetric surface whose root is off y=0 gets a
+    # ghost joined to it by a panel bridging the gap; all surfaces of such a configuration see the wrong induction.
+    return case.get("kind") == "aero" and "some_root_off_y0" in _tags(v) and v["family"].startswith("aero/") and v["family"] != "aero/S_ref"
+
+
+@predicate("wingbox_vm_right_half_ks")
+def _wb_ks(case, v):
+    # VonMisesWingbox evaluates bending stresses at element node 1, the outboard end on the right half of a full-span wing:
+    # the full-span aggregate does not contain the mirror image of the left-half stresses (see C07).
+    return v["family"] == "as/failure_ks_relation" and "wingbox" in _tags(v)
+
+
+@predicate("point_mass_smearing_crosses_symmetry_plane")
+def _pm_smear(case, v):
+    # ComputePointMassLoads/ComputeThrustLoads spread each point load over *all* nodes of the surface with inverse
+    # spanwise-distance^10 weights; in the full-span model a little of each mass lands on the other half (and its mirror image
+    # returns the force but with a different moment arm), so half and full models differ at the 1e-7..1e-5 level.
+    if case.get("kind") != "as" or not case.get("npm"):
+        return False
+    e, tol = v.get("err"), v.get("tol")
+    if e is None or not tol:
+        return False
+    # tol is 1e-7 * scale for these families: accept only discrepancies below 1e-4 of the quantity's scale
+    return v["family"] in ("as/disp", "as/vonmises", "as/CM", "as/sec_forces", "as/CL", "as/CD", "as/fuelburn", "as/L_equals_W", "as/total_cg",
+                           "as/surface_CDi", "as/surface_CDv", "as/surface_CL1", "as/failure_exact_on_half", "as/failure_ks_relation",
+                           "as/S_ref") and e / tol < 1e3
